@@ -110,7 +110,7 @@ fn main() {
     let mut plan: Vec<(&str, u64, u64)> = vec![];
     if want(&["C01", "C02", "C03", "C09"]) {
         plan.push(("hist", 1000, 20_000));
-        plan.push(("large", 5, 60));
+        plan.push(("large", 7, 63));
     }
     if want(&["C05"]) {
         plan.push(("pf", 1000, 20_000));
